@@ -12,6 +12,7 @@ import (
 	"github.com/smart-core-os/sc-api/go/traits"
 	"github.com/smart-core-os/sc-api/go/types"
 
+	"github.com/smart-core-os/sc-golang/pkg/masks"
 	"github.com/smart-core-os/sc-golang/pkg/resource"
 )
 
@@ -109,7 +110,7 @@ func (s *ModelServer) ListModes(_ context.Context, request *traits.ListModesRequ
 	lastKey := pageToken.GetLastResourceName() // the key() of the last item we sent
 	pageSize := capPageSize(int(request.GetPageSize()))
 
-	sortedModes := s.model.Modes(resource.WithReadMask(request.ReadMask))
+	sortedModes := s.model.Modes()
 	nextIndex := 0
 	if lastKey != "" {
 		nextIndex = sort.Search(len(sortedModes), func(i int) bool {
@@ -135,7 +136,11 @@ func (s *ModelServer) ListModes(_ context.Context, request *traits.ListModesRequ
 	if err != nil {
 		return nil, err
 	}
-	result.Modes = sortedModes[nextIndex:upperBound]
+	// the read mask is applied to the page, not before paging: the token is built from the items' keys
+	filter := masks.NewResponseFilter(masks.WithFieldMask(request.ReadMask))
+	for _, item := range sortedModes[nextIndex:upperBound] {
+		result.Modes = append(result.Modes, filter.FilterClone(item).(*traits.ElectricMode))
+	}
 	return result, nil
 }
 
